@@ -82,7 +82,7 @@ class SolveCtx:
         self.pre_ids = set()
 
 
-def build(u, policy, collect_path=None, limited=None, display_real=False):
+def build(u, policy, collect_path=None, limited=None, display_real=False, start_anywhere=False):
     p = u.path
     if collect_path is None:
         collect_path = p.choose("collect_path")
@@ -136,7 +136,14 @@ def build(u, policy, collect_path=None, limited=None, display_real=False):
     A = u.it.abstract
 
     def create_transformed_iterate(it, self_, x0, y0):
-        ctx.start = new_iterate("start", evaluated=False)
+        if start_anywhere:
+            # a user-supplied start point that need not satisfy the bounds (C05's premise does not hold; C12 and C04
+            # still speak about it: the first announced step starts from the transformed x0, whatever it is)
+            ctx.start = mk_iterate(u, problem, params, "start", evaluated=False, in_box=False)
+            ctx.start.fields["eval"] = ev
+            ctx.start_anywhere = True
+        else:
+            ctx.start = new_iterate("start", evaluated=False)
         return ctx.start
 
     A["pygradflow.transform.Transformation.create_transformed_iterate"] = create_transformed_iterate
@@ -278,6 +285,10 @@ class SolveLoop:
 
     def establish(self, it, frame, site):
         ctx = self.ctx
+        if getattr(ctx, "start_anywhere", False):
+            # the prologue unit: only the identity of the point the loop starts from is asked, the loop is not entered
+            it.path.prove(frame.locals["iterate"] is ctx.start, "Solver.solve/entry:the_loop_starts_from_the_transformed_start_point_itself(not_a_projection_of_it)", kind="invariant", props=["C12", "C04"])
+            raise PathEnd()
         ctx.n_steps = len(ctx.steps)
         ctx.n_cb = len(ctx.cbs)
         ctx.maxy = z3.RealVal(0)
@@ -636,6 +647,18 @@ def _mk(policy):
 
 for _p in POLICIES:
     _mk(_p)
+
+
+@unit("C12.solve.start[x0 anywhere]", ["C12", "C04"], [SOLVE], config={"max_paths": 400})
+def solve_start_anywhere(u):
+    """the prologue of solve() for a user start point that need not lie inside the bounds: the iterate the loop starts
+    from - the one the first ComputedStep callback and path[:, 0] show - is the transformed x0 itself"""
+    ctx = build(u, "Constant", collect_path=None, limited=False, start_anywhere=True)
+    spec = SolveLoop(u, ctx)
+    u.it.loop_specs[LOOP] = spec
+    x0, y0 = u.vec("x0_user", u.int("n_user")), u.vec("y0_user", ctx.problem.fields["num_cons"])
+    kind, val = u.raised(lambda: u.method(ctx.solver, "solve", x0, y0))
+    u.ensure(True, "ran")
 
 
 @unit("solve.display", ["C09", "C06"], [SOLVE, "pygradflow.display.solver_display", "pygradflow.display.iter_cols", "pygradflow.display.Display.__init__", "pygradflow.display.Display.row", "pygradflow.display.Display.header", "pygradflow.display.AttrColumn.content", "pygradflow.display.ActiveSetColumn.content", "pygradflow.display.StateData.__getitem__", "pygradflow.display.StateAttr.__call__", "pygradflow.display.IterateAttr.__call__", "pygradflow.display.BoldFormatter.__call__", "pygradflow.display.StringFormatter.__call__", "pygradflow.display.StepFormatter.__call__", "pygradflow.display.RCondFormatter.__call__", "pygradflow.iterate.Iterate.obj_nonlin", "pygradflow.iterate.Iterate.cons_nonlin"], config={"max_paths": 20000, "implicit_props": ["C06", "C09"]})
